@@ -295,8 +295,13 @@ def _add_fact(fname, fact):
         st.array_facts.append((fname, g))
 
 
+_QUIET = [False]
+
+
 def _assume_once(t):
     """instance of an assumed library fact, added to the current path (so that branch decisions see it)"""
+    if _QUIET[0]:
+        return
     st = cur()
     t = z3.simplify(t)
     if z3.is_true(t):
@@ -440,7 +445,11 @@ def _match_row_column(a):
         return None
     t0 = z3.Int("uq!t")
     r = a.reader()
-    e = norm(r((SV(t0),)))
+    _QUIET[0] = True
+    try:
+        e = norm(r((SV(t0),)))
+    finally:
+        _QUIET[0] = False
     if not isinstance(e, SV):
         return None
     e = z3.simplify(e.t)
